@@ -8,6 +8,7 @@ package c17
 import (
 	"bytes"
 	"compress/gzip"
+	"context"
 	"embed"
 	"fmt"
 	"io"
@@ -15,6 +16,7 @@ import (
 	"os"
 	"path/filepath"
 	"reflect"
+	"regexp"
 	"strconv"
 	"strings"
 
@@ -35,12 +37,13 @@ type apiVersion struct {
 	file     protoreflect.FileDescriptor
 	svcDesc  *grpc.ServiceDesc
 	srvIface reflect.Type
+	unimpl   any // the generated UnimplementedInsightsServer: every method answers "method X not implemented"
 }
 
 func apiVersions() []apiVersion {
 	return []apiVersion{
-		{"v3", "api/v3", v3.File_api_proto, &v3.Insights_ServiceDesc, reflect.TypeOf((*v3.InsightsServer)(nil)).Elem()},
-		{"v3alpha", "api/v3alpha", v3a.File_api_proto, &v3a.Insights_ServiceDesc, reflect.TypeOf((*v3a.InsightsServer)(nil)).Elem()},
+		{"v3", "api/v3", v3.File_api_proto, &v3.Insights_ServiceDesc, reflect.TypeOf((*v3.InsightsServer)(nil)).Elem(), v3.UnimplementedInsightsServer{}},
+		{"v3alpha", "api/v3alpha", v3a.File_api_proto, &v3a.Insights_ServiceDesc, reflect.TypeOf((*v3a.InsightsServer)(nil)).Elem(), v3a.UnimplementedInsightsServer{}},
 	}
 }
 
@@ -107,6 +110,11 @@ func runSrc(m *mon) {
 		m.r.Count("src:files_parsed", 1)
 		m.r.Count("src:comments_skipped", int64(src.Comments))
 		c := &srcCmp{m: m, ver: v.name, fd: v.file, src: src}
+		if gb, err := os.ReadFile(filepath.Join(repoDir(), v.dir, "api.pb.go")); err == nil {
+			c.goSrc = string(gb)
+		} else {
+			m.r.Inconclusive("src: " + err.Error())
+		}
 		c.file()
 		c.goBindings()
 		c.serviceDesc(v)
@@ -119,6 +127,7 @@ type srcCmp struct {
 	fd    protoreflect.FileDescriptor
 	src   *srcFile
 	decls map[string]string // full name -> "message" | "enum" | "package"
+	goSrc string            // text of the package's api.pb.go ("" = not read)
 
 	quiet    bool // self-test: collect, do not report
 	problems []string
@@ -1222,6 +1231,7 @@ func (c *srcCmp) goLegacyEnum(ed protoreflect.EnumDescriptor) {
 	if !ok {
 		return
 	}
+	c.goEnumTables(ed, path)
 	c.el("go-legacy-descriptor", path)
 	gz, idx := le.EnumDescriptor()
 	name, err := legacyEnumPathName(gz, idx)
@@ -1373,6 +1383,34 @@ func (c *srcCmp) serviceDesc(v apiVersion) {
 	}
 	for _, m := range d.Methods {
 		gotUnary = append(gotUnary, m.MethodName)
+		// Dispatch: the handler registered under the rpc's name must decode
+		// the rpc's request type and call the server method of that name. The
+		// generated Unimplemented server names the method it was asked for.
+		rpc := sd.Methods().ByName(protoreflect.Name(m.MethodName))
+		if rpc == nil || m.Handler == nil || v.unimpl == nil {
+			continue
+		}
+		path := string(sd.Name()) + "." + m.MethodName
+		c.el("servicedesc-dispatch", path)
+		var decoded proto.Message
+		_, herr := func() (r any, err error) {
+			defer func() {
+				if p := recover(); p != nil {
+					err = fmt.Errorf("panic: %v", p)
+				}
+			}()
+			return m.Handler(v.unimpl, context.Background(), func(x any) error { decoded, _ = x.(proto.Message); return nil }, nil)
+		}()
+		if decoded == nil || decoded.ProtoReflect().Descriptor().FullName() != rpc.Input().FullName() {
+			got := "<nothing>"
+			if decoded != nil {
+				got = string(decoded.ProtoReflect().Descriptor().FullName())
+			}
+			c.bad("servicedesc:dispatch", path, "the handler registered for the rpc decodes another request type", string(rpc.Input().FullName()), got)
+		}
+		if want := "method " + m.MethodName + " not implemented"; herr == nil || !strings.Contains(herr.Error(), want) {
+			c.bad("servicedesc:dispatch", path, "the handler registered for the rpc calls another server method", want, fmt.Sprint(herr))
+		}
 	}
 	for _, s := range d.Streams {
 		gotStream = append(gotStream, fmt.Sprintf("%s client=%v server=%v", s.StreamName, s.ClientStreams, s.ServerStreams))
@@ -1456,4 +1494,49 @@ func legacyEnumPathName(gz []byte, path []int) (string, error) {
 		return "", fmt.Errorf("index path %v out of range", path)
 	}
 	return name + "." + enums[last].GetName(), nil
+}
+
+var enumTableRe = regexp.MustCompile(`(?s)\b(\w+)_(name|value) = map\[(?:int32\]string|string\]int32)\{(.*?)\n\t\}`)
+var enumEntryRe = regexp.MustCompile(`(?m)^\s*(?:(-?\d+):\s*"(\w+)"|"(\w+)":\s*(-?\d+)),`)
+
+// goEnumTables compares the exported lookup tables <Enum>_name and
+// <Enum>_value, as written in api.pb.go, with the enum's values.
+func (c *srcCmp) goEnumTables(ed protoreflect.EnumDescriptor, path string) {
+	if c.goSrc == "" {
+		return
+	}
+	goName := string(ed.Name())
+	for p := ed.Parent(); p != nil; p = p.Parent() {
+		if _, ok := p.(protoreflect.MessageDescriptor); !ok {
+			break
+		}
+		goName = string(p.Name()) + "_" + goName
+	}
+	want := map[string]string{}
+	for i := 0; i < ed.Values().Len(); i++ {
+		v := ed.Values().Get(i)
+		want[string(v.Name())] = fmt.Sprint(v.Number())
+	}
+	seen := map[string]bool{}
+	for _, m := range enumTableRe.FindAllStringSubmatch(c.goSrc, -1) {
+		if m[1] != goName {
+			continue
+		}
+		seen[m[2]] = true
+		c.el("go-enum-table", path+"."+m[2])
+		got := map[string]string{}
+		for _, e := range enumEntryRe.FindAllStringSubmatch(m[3], -1) {
+			if m[2] == "name" {
+				got[e[2]] = e[1]
+			} else {
+				got[e[3]] = e[4]
+			}
+		}
+		if fmt.Sprint(got) != fmt.Sprint(want) {
+			c.bad("go:enum-table", path+"."+m[2], "the exported "+goName+"_"+m[2]+" table differs from the enum's values", fmt.Sprint(want), fmt.Sprint(got))
+		}
+	}
+	if !seen["name"] || !seen["value"] {
+		c.unclear(path, "exported enum tables "+goName+"_name/_value not found in api.pb.go")
+	}
 }
